@@ -119,7 +119,7 @@ func wideClauseCases(env *core.Env, count int, cert bool) []core.Case {
 	for i := 0; i < count; i++ {
 		ny := 18 + r.Intn(16)
 		nx := []int{120, 1001 + r.Intn(400), 1001 + r.Intn(400), 2050 + r.Intn(100)}[r.Intn(4)]
-		clauses, w := gen.PlantedKSAT(r, ny, int((4.0+0.6*r.Float64())*float64(ny)), 3)
+		clauses, w := gen.PlantedKSAT(r, ny, int((4.3+1.0*r.Float64())*float64(ny)), 3)
 		a := 1 + r.Intn(ny)
 		w1, w2 := make([]int, 0, nx+1), make([]int, 0, nx+1)
 		for v := ny + 1; v <= ny+nx; v++ {
@@ -128,6 +128,41 @@ func wideClauseCases(env *core.Env, count int, cert bool) []core.Case {
 		}
 		w[ny+r.Intn(nx)] = true
 		w1, w2 = append(w1, a), append(w2, -a)
+		// a few short clauses tie some of the fresh variables (the first and last ones more often) to the
+		// core, so that the wide learned clauses are used again by later conflicts; all true under the witness
+		for j := 2 + r.Intn(8); j > 0; j-- {
+			var c []int
+			for x := 1 + r.Intn(2); x > 0; x-- {
+				v := ny + 1 + r.Intn(nx)
+				switch r.Intn(3) {
+				case 0:
+					v = ny + 1 + r.Intn(3)
+				case 1:
+					v = ny + nx - r.Intn(3)
+				}
+				if r.Intn(2) == 0 {
+					v = -v
+				}
+				c = append(c, v)
+			}
+			for x := 1 + r.Intn(2); x > 0; x-- {
+				c = append(c, gen.RandLit(r, ny))
+			}
+			ok := false
+			for _, l := range c {
+				v := l
+				if v < 0 {
+					v = -v
+				}
+				if w[v-1] == (l > 0) {
+					ok = true
+				}
+			}
+			if !ok {
+				c[0] = -c[0]
+			}
+			clauses = append(clauses, c)
+		}
 		clauses = append([][]int{w1, w2}, clauses...)
 		cfg := gen.Cfg(cert, 0, 0, false, false, false)
 		c := gen.APICase([]string{"slicenb", "dimacs"}[r.Intn(2)], ny+nx, true, gen.ClauseCtors(clauses), false, nil, cfg, []gen.M{gen.Op("solve")})
